@@ -269,6 +269,7 @@ type Outcome struct {
 	FSLog    []string `json:"fs_log,omitempty"`
 	Saved    []byte   `json:"-"`
 	SavedOK  bool     `json:"saved_ok,omitempty"` // target is a regular file after the op
+	Target   string   `json:"target,omitempty"`   // Save target, relative to the op's sandbox directory
 	State    string   `json:"state,omitempty"`    // digest of the File's import table after the op
 	NoFormat bool     `json:"noformat,omitempty"`
 }
@@ -346,7 +347,11 @@ func snapshotDir(dir string) []string {
 		}
 		b, _ := os.ReadFile(p)
 		h := sha256.Sum256(b)
-		rows = append(rows, fmt.Sprintf("%s file size=%d sha=%s mtime=%d mode=%o", rel, len(b), hex.EncodeToString(h[:6]), info.ModTime().UnixNano(), info.Mode().Perm()))
+		age := "written-during-run"
+		if info.ModTime().Equal(oldTime) {
+			age = "as-set-up"
+		}
+		rows = append(rows, fmt.Sprintf("%s file size=%d sha=%s mtime=%s mode=%o", rel, len(b), hex.EncodeToString(h[:6]), age, info.Mode().Perm()))
 		return nil
 	})
 	sort.Strings(rows)
@@ -525,6 +530,7 @@ func Exec(r *Recipe, env *Env) (hist []Outcome) {
 				os.RemoveAll(sub)
 				target, structural := setupTarget(sub, op.F, i)
 				o.FSFault = structural
+				o.Target, _ = filepath.Rel(sub, target)
 				o.FSBefore = snapshotDir(sub)
 				if env.Sim != nil {
 					env.Sim.armFS(op.F, faults)
@@ -537,7 +543,7 @@ func Exec(r *Recipe, env *Env) (hist []Outcome) {
 				}
 				for _, c := range simhook.FSLog {
 					rel, _ := filepath.Rel(sub, c.Name)
-					o.FSLog = append(o.FSLog, fmt.Sprintf("%s %s size=%d partial=%d injected=%q err=%v", c.Op, rel, c.Size, c.Partial, c.Injected, c.Err != ""))
+					o.FSLog = append(o.FSLog, fmt.Sprintf("%s %s size=%d partial=%d injected=%q err=%v", c.Op, rel, c.Size, c.Partial, strings.ReplaceAll(c.Injected, env.Sandbox, "$SANDBOX"), c.Err != ""))
 				}
 				o.FSAfter = snapshotDir(sub)
 				if st, e := os.Lstat(target); e == nil && st.Mode().IsRegular() {
@@ -553,6 +559,11 @@ func Exec(r *Recipe, env *Env) (hist []Outcome) {
 			}
 		}()
 		o.State, _ = importState(f)
+		if env.Sandbox != "" {
+			// keep event logs free of process-specific paths
+			o.Err = strings.ReplaceAll(o.Err, env.Sandbox, "$SANDBOX")
+			o.Panic = strings.ReplaceAll(o.Panic, env.Sandbox, "$SANDBOX")
+		}
 		if len(o.Err) > 400 {
 			o.Err = o.Err[:400] + "…"
 		}
